@@ -111,8 +111,11 @@ func (p *ProjectRunner) Run() error {
 	return err
 }
 
-func (p *ProjectRunner) runProcess(config *types.ProcessConfig) {
-	p.launchProcess(config, false)
+func (p *ProjectRunner) runProcess(config *types.ProcessConfig) error {
+	if !p.launchProcess(config, false) {
+		return fmt.Errorf("process %s is already running", config.ReplicaName)
+	}
+	return nil
 }
 
 // launchProcess registers the process and starts its goroutine. With unlessShuttingDown
@@ -152,8 +155,10 @@ func (p *ProjectRunner) launchProcess(config *types.ProcessConfig, unlessShuttin
 		withExtraArgs(extraArgs),
 	)
 	if !p.addRunningProcess(process, unlessShuttingDown) {
-		// never launched: do not leave it Pending for ever
-		process.onProcessEnd(types.ProcessStateCompleted)
+		if unlessShuttingDown && p.isShuttingDown.Load() {
+			// never launched: do not leave it Pending for ever
+			process.onProcessEnd(types.ProcessStateCompleted)
+		}
 		return false
 	}
 	p.waitGroup.Add(1)
@@ -318,10 +323,16 @@ func (p *ProjectRunner) getProcessesStateData(filter filterFn) error {
 // addRunningProcess registers the process; with unlessShuttingDown it refuses (returns
 // false) once a project shutdown has been requested. ShutDownProject raises the flag
 // before it takes runProcMutex, so a process is either in the shutdown's snapshot or refused.
+// It also refuses to replace another instance that has not ended yet: the test "is it
+// running?" and the registration are one step, so two concurrent start/restart requests
+// cannot both launch an instance.
 func (p *ProjectRunner) addRunningProcess(process *Process, unlessShuttingDown bool) bool {
 	p.runProcMutex.Lock()
 	defer p.runProcMutex.Unlock()
 	if unlessShuttingDown && p.isShuttingDown.Load() {
+		return false
+	}
+	if current, ok := p.runningProcesses[process.getName()]; ok && current != process && !current.isDone() {
 		return false
 	}
 	p.runningProcesses[process.getName()] = process
@@ -378,12 +389,9 @@ func (p *ProjectRunner) StartProcess(name string) error {
 		return fmt.Errorf("process %s is already running", name)
 	}
 	if processConfig, ok := p.project.Processes[name]; ok {
-		p.runProcess(&processConfig)
-	} else {
-		return fmt.Errorf("no such process: %s", name)
+		return p.runProcess(&processConfig)
 	}
-
-	return nil
+	return fmt.Errorf("no such process: %s", name)
 }
 
 func (p *ProjectRunner) StopProcess(name string) error {
@@ -440,11 +448,9 @@ func (p *ProjectRunner) RestartProcess(name string) error {
 	}
 
 	if processConfig, ok := p.project.Processes[name]; ok {
-		p.runProcess(&processConfig)
-	} else {
-		return fmt.Errorf("no such process: %s", name)
+		return p.runProcess(&processConfig)
 	}
-	return nil
+	return fmt.Errorf("no such process: %s", name)
 }
 
 func (p *ProjectRunner) GetProcessInfo(name string) (*types.ProcessConfig, error) {
@@ -834,7 +840,7 @@ func (p *ProjectRunner) addProcessAndRun(proc types.ProcessConfig) {
 	p.project.Processes[proc.ReplicaName] = proc
 	p.initProcessLog(proc.ReplicaName)
 	if !proc.IsDeferred() {
-		p.runProcess(&proc)
+		_ = p.runProcess(&proc)
 	}
 }
 
